@@ -149,10 +149,12 @@ pub fn phases(tier: &str) -> Vec<Phase>
     if tier == "thorough"
     {
         vec![
-            Phase { label: "preemption-bound-0", por: false, bound: Some(0), secs: 20.0 },
-            Phase { label: "preemption-bound-1", por: false, bound: Some(1), secs: 40.0 },
-            Phase { label: "dpor-unbounded", por: true, bound: None, secs: 120.0 },
-            Phase { label: "preemption-bound-2", por: false, bound: Some(2), secs: 60.0 },
+            Phase { label: "preemption-bound-0", por: false, bound: Some(0), secs: 8.0 },
+            Phase { label: "preemption-bound-1", por: false, bound: Some(1), secs: 15.0 },
+            Phase { label: "dpor-unbounded", por: true, bound: None, secs: 90.0 },
+            Phase { label: "preemption-bound-2", por: false, bound: Some(2), secs: 15.0 },
+            // only run when bound 1 was small: complete enumeration of *all* schedules, no reduction
+            Phase { label: "plain-unbounded", por: false, bound: None, secs: 20.0 },
         ]
     }
     else
@@ -211,8 +213,10 @@ pub fn run_sched_plans(rep: &mut Report, id: &str, cases: Vec<SchedCase>, phases
         let mut por_outcomes: std::collections::BTreeSet<String> = Default::default();
         let mut por_states: std::collections::BTreeSet<[u8; 16]> = Default::default();
         let mut largest_bound: Option<usize> = None;
+        let mut bound1_small = false;
         for ph in phases.iter()
         {
+            if ph.label == "plain-unbounded" && !bound1_small { continue; }
             let deadline = Instant::now() + Duration::from_millis((ph.secs * 1000.0) as u64);
             let cfg = ExploreCfg { snapshots: false, por: ph.por, bound: ph.bound, threads: threads(), deadline, max_schedules: 100_000_000, oracles: or.clone(), c03, c04_history: id == "C04" };
             let r = schedeng::explore(&case, &prep, &cfg);
@@ -220,6 +224,7 @@ pub fn run_sched_plans(rep: &mut Report, id: &str, cases: Vec<SchedCase>, phases
             per_phase.push(json!({"phase": ph.label, "executions": r.schedules, "complete": !capped,
                 "distinct_outcomes": r.outcomes.len(), "distinct_end_states": r.end_states.len()}));
             total_sched += r.schedules;
+            if ph.label == "preemption-bound-1" && !capped && r.schedules < 3000 { bound1_small = true; }
             if ph.por
             {
                 if !capped { por_complete = true; }
@@ -228,7 +233,7 @@ pub fn run_sched_plans(rep: &mut Report, id: &str, cases: Vec<SchedCase>, phases
             }
             else
             {
-                if !capped { largest_bound = Some(largest_bound.map(|b| b.max(ph.bound.unwrap_or(0))).unwrap_or(ph.bound.unwrap_or(0))); }
+                if !capped { largest_bound = Some(largest_bound.map(|b| b.max(ph.bound.unwrap_or(99))).unwrap_or(ph.bound.unwrap_or(99))); }
                 unreduced_outcomes.extend(r.outcomes.keys().cloned());
                 unreduced_states.extend(r.end_states.iter().cloned());
             }
